@@ -29,6 +29,86 @@ func c17(c *Ctx) {
 	c17R9(c)
 	c17R10(c)
 	itemIndependent(c, "C17.R7", [][3]string{{"pkg/controller/pod", "ReconcilePod.ParsePodNetworksFromAnnotation", "one allocation per requested network"}})
+	c17R11(c)
+	c17R12(c)
+}
+
+// R11: the 'most' policy orders the whole candidate list. The filter that follows skips switches of
+// another zone, blocked ones and empty ones; only a complete order makes the first one it keeps the
+// one with the most free addresses among those that qualify.
+func c17R11(c *Ctx) {
+	p := c.P
+	c.Rule("C17.R11", "GetOne, policy 'most': the candidate list is put in order by a sort over all candidates (moving the single maximum to the front is not enough: the maximum may be one the zone / blocked / empty filter skips)")
+	fn := p.Func(vswPkg, "SwitchPool.GetOne")
+	mostC := p.LookupObj(vswPkg, "VSwitchSelectionPolicyMost")
+	if fn == nil || mostC == nil {
+		c.Unres("C17.R11", "SwitchPool.GetOne / VSwitchSelectionPolicyMost", "not found")
+		return
+	}
+	info := fn.Info()
+	n := 0
+	ast.Inspect(fn.Decl.Body, func(nd ast.Node) bool {
+		cc, ok := nd.(*ast.CaseClause)
+		if !ok {
+			return true
+		}
+		isMost := false
+		for _, x := range cc.List {
+			if identObjSel(info, x) == mostC {
+				isMost = true
+			}
+		}
+		if !isMost {
+			return true
+		}
+		n++
+		sorted := false
+		for _, st := range cc.Body {
+			ast.Inspect(st, func(k ast.Node) bool {
+				if call, ok := k.(*ast.CallExpr); ok {
+					if cal := Callee(info, call); cal != nil && cal.Pkg() != nil && (cal.Pkg().Path() == "sort" || cal.Pkg().Path() == "slices") && strings.HasPrefix(cal.Name(), "S") {
+						sorted = true
+					}
+				}
+				return true
+			})
+		}
+		c.Check(sorted, "C17.R11", "policy 'most' sorts the candidates", p.Pos(cc), fn.Key(), "sort.Sort / sort.Slice / slices.SortFunc over the candidates in the case", "no sort in the case: the order of the candidates after the first is the configured one")
+		return true
+	})
+	c.Floor("C17.R11", "case VSwitchSelectionPolicyMost in GetOne", 1, n)
+}
+
+// R12: every attempt of the interface-creating retry chooses its vSwitch anew. A switch the cloud has
+// just reported exhausted is blocked by the attempt that saw the error; only a new GetOne honours that.
+func c17R12(c *Ctx) {
+	p := c.P
+	c.Rule("C17.R12", "Aliyun.CreateNetworkInterface: SwitchPool.GetOne is called inside the retried closure that issues the create call (a switch blocked by one attempt is not used by the next)")
+	fn := p.Func("pkg/factory/aliyun", "Aliyun.CreateNetworkInterface")
+	getOne := p.Method(vswPkg, "SwitchPool", "GetOne")
+	if fn == nil || getOne == nil {
+		c.Unres("C17.R12", "Aliyun.CreateNetworkInterface / SwitchPool.GetOne", "not found")
+		return
+	}
+	var createLit *ast.FuncLit
+	nCreate := 0
+	for _, cs := range p.CallsIn(fn) {
+		if cs.Callee != nil && cs.Callee.Name() == "CreateNetworkInterface" && cs.Lit != nil {
+			createLit = cs.Lit
+			nCreate++
+		}
+	}
+	if createLit == nil {
+		c.Undec("C17.R12", "the create call is issued from a retried closure", p.Pos(fn.Decl), fn.Key(), "wait.ExponentialBackoff…(func…{ … CreateNetworkInterface … })", "no create call inside a function literal")
+		return
+	}
+	n := 0
+	for _, cs := range p.CallsTo([]*FuncInfo{fn}, getOne) {
+		n++
+		inside := cs.Lit != nil && createLit.Pos() <= cs.Call.Pos() && cs.Call.End() <= createLit.End()
+		c.Check(inside, "C17.R12", "the vSwitch is chosen in the attempt that uses it", p.Pos(cs.Call), fn.Key(), "GetOne inside the retried closure", "GetOne outside the retried closure: every attempt uses the switch chosen before the first")
+	}
+	c.Floor("C17.R12", "GetOne calls in Aliyun.CreateNetworkInterface", 1, n)
 }
 
 // sliceMutations lists operations in fd that may write through the backing
